@@ -348,7 +348,7 @@ fn op_strategy(max_abs: u32) -> BoxedStrategy<TOp> {
         2 => sz().prop_map(TOp::MacUpdate),
         1 => sz().prop_map(TOp::MacChain),
         1 => sz().prop_map(TOp::DynUpdate),
-        4 => prop::sample::select(vec![
+        4 => crate::gen::select(vec![
             TOp::FinalizeFixed, TOp::FinalizeInto, TOp::FinalizeFixedReset, TOp::FinalizeIntoReset, TOp::Reset,
             TOp::DigestFinalize, TOp::DigestFinalizeInto, TOp::DigestFinalizeReset, TOp::DigestFinalizeIntoReset, TOp::DigestReset,
             TOp::DynFinalizeReset, TOp::DynFinalizeBoxed, TOp::DynFinalizeInto, TOp::DynFinalizeIntoReset, TOp::DynReset, TOp::DynBoxClone,
@@ -468,7 +468,7 @@ pub fn classify_guts(c: &GCase) -> Classes {
 
 fn guts_strategy(_tier: Tier) -> BoxedStrategy<GCase> {
     prop_oneof![
-        6 => (gen::counter_lattice(), prop_oneof![2 => 0u16..=1024, 1 => prop::sample::select(vec![0u16, 1, 63, 64, 65, 128, 1023, 1024])], gen::content(), prop::collection::vec(hist::size(1024), 0..4), prop::bool::weighted(0.25))
+        6 => (gen::counter_lattice(), prop_oneof![2 => 0u16..=1024, 1 => crate::gen::select(vec![0u16, 1, 63, 64, 65, 128, 1023, 1024])], gen::content(), prop::collection::vec(hist::size(1024), 0..4), prop::bool::weighted(0.25))
             .prop_map(|(counter, len, content, splits, is_root)| GCase::Chunk { counter, len, content, splits, is_root }),
         3 => (any::<[u8; 32]>(), any::<[u8; 32]>(), any::<bool>()).prop_map(|(left, right, is_root)| GCase::Parent { left, right, is_root }),
         1 => (gen::len_lattice(40_000).prop_map(|l| l as u32), gen::content(), 0u16..=500).prop_map(|(len, content, out)| GCase::OneShot { len, content, out }),
